@@ -1,5 +1,5 @@
-\* quick: populations of 0..4 candidates x {ok, jailed, over-chained} x N in 1..3 x all streams of length <= 6
-CONSTANTS MaxNodes = 4  StatusSet = {"ok", "jailed", "over"}  Counts = {1, 2, 3}  MaxPicks = 6  RecordHist = TRUE
+\* quick: populations of 0..4 candidates x {ok, jailed, over-chained} x N in 1..3 x all index streams of length <= 5
+CONSTANTS MaxNodes = 4  StatusSet = {"ok", "jailed", "over"}  Counts = {1, 2, 3}  MaxPicks = 5  RecordHist = TRUE
 INIT Init
 NEXT NextEmit
 INVARIANTS TypeOK C33_OnlyEligibleDistinctNodes C33_Deterministic C33_EndsWhenAllDrawn
